@@ -12,6 +12,7 @@ const (
 	InputDataParsing       Operation = "InputDataParsing"
 	InputDataNormalization Operation = "InputDataNormalization"
 	RegoGeneration         Operation = "RegoGeneration"
+	RegoCompilation        Operation = "RegoCompilation"
 	OpaValidation          Operation = "OpaValidation"
 	BuildReport            Operation = "BuildReport"
 )
@@ -26,7 +27,7 @@ func GenerateMilestonesFromEvents(eventChan *chan e.Event, milestoneChan *chan M
 	startEvents := make(map[e.EventType]e.Event)
 	for event := range *eventChan {
 		switch eventType := event.EventType; eventType {
-		case e.ProfileParsingStart, e.InputDataParsingStart, e.InputDataNormalizationStart, e.RegoGenerationStart, e.OpaValidationStart, e.BuildReportStart:
+		case e.ProfileParsingStart, e.InputDataParsingStart, e.InputDataNormalizationStart, e.RegoGenerationStart, e.RegoCompilationStart, e.OpaValidationStart, e.BuildReportStart:
 			startEvents[eventType] = event
 		case e.ProfileParsingDone:
 			start := startEvents[e.ProfileParsingStart]
@@ -44,6 +45,10 @@ func GenerateMilestonesFromEvents(eventChan *chan e.Event, milestoneChan *chan M
 			start := startEvents[e.RegoGenerationStart]
 			end := event
 			*milestoneChan <- generateMilestone(RegoGeneration, start, end)
+		case e.RegoCompilationDone:
+			start := startEvents[e.RegoCompilationStart]
+			end := event
+			*milestoneChan <- generateMilestone(RegoCompilation, start, end)
 		case e.OpaValidationDone:
 			start := startEvents[e.OpaValidationStart]
 			end := event
